@@ -9,7 +9,7 @@ import ast
 from fractions import Fraction
 
 from .values import (
-    App, BoundMethod, BuiltinV, ClassMethodV, ClassV, Cond, DictV, Ext, FuncV, Lin, ListOf, ListV,
+    App, BoundMethod, BuiltinV, ClassMethodV, ClassV, Cond, DictV, Ext, FuncV, IterV, Lin, ListOf, ListV,
     ModuleV, Obj, PartialV, PropertyV, SetV, StaticV, Sym, SymStr, Unsupported, cmp_cond, num_add,
     show, str_concat, vkey,
 )
@@ -634,7 +634,17 @@ def make_builtins(interp):
 
     @reg("iter")
     def _(i, a, k, n):
-        return a[0]
+        return IterV(a[0])
+
+    @reg("filter")
+    def _(i, a, k, n):
+        return IterV(a[1], a[0], "filter")
+
+    @reg("map")
+    def _(i, a, k, n):
+        if len(a) != 2:
+            raise Unsupported("map with several iterables", n)
+        return IterV(a[1], a[0], "map")
 
     @reg("sum")
     def _(i, a, k, n):
